@@ -360,7 +360,7 @@ func framingPart(c *vf.Ctx, u *refsmb.Universe, t *smbgen.Tally) {
 	var execs int64
 	vf.Par(len(u.Cmds), func(i int) {
 		cmd := u.Cmds[i]
-		lat := cmd.Lattices(c.Thorough())
+		lat := refsmb.WithoutFormatVariants(cmd.Lattices(c.Thorough()))
 		for _, full := range []bool{false, true} {
 			bound := c.Pick(3, 4)
 			if full {
@@ -531,7 +531,7 @@ func repeatPart(c *vf.Ctx, u *refsmb.Universe, t *smbgen.Tally) {
 	depth := c.Pick(3, 4)
 	vf.Par(len(u.Cmds), func(i int) {
 		cmd := u.Cmds[i]
-		lat := cmd.Lattices(false)
+		lat := refsmb.WithoutFormatVariants(cmd.Lattices(false))
 		for _, a := range []*refsmb.Assign{cmd.Zero(lat), cmd.FullAssign(lat)} {
 			newMsg := func() *message.Message {
 				x, err := a.Build()
